@@ -382,6 +382,37 @@ fn scan_stream(rep: &mut Report, drv: &mut Driver, rng: &mut Rng, n: usize) -> R
         }
     }
     rep.streams.push(st);
+    // transform lists, legal and malformed (wrong number of arguments, unknown names, stray characters,
+    // white space in every legal place): accepted / rejected alike by TransformAttr::from_str + apply and by
+    // the model (parseXfList, applyXfList), with the same box on acceptance (translate and scale only move it)
+    let mut st = Stream::new("scan/transform-lists", "correspondence", "transform lists from the grammar plus malformed ones (arity errors for all six kinds, unknown names, missing parentheses, white space between name and parenthesis) applied to a box: TransformAttr::from_str + apply (hook transform_apply) vs the Lean model parseXfList + applyXfList - same verdict, same box; non-trivial = every case");
+    for i in 0..n / 4 {
+        let t = if i % 3 == 0 {
+            let name = *rng.pick(&["translate", "scale", "rotate", "skewX", "skewY", "matrix", "Translate", "foo", ""]);
+            let k = rng.below(8);
+            let v: Vec<String> = (0..k).map(|_| num(rng, -9, 9).0).collect();
+            let gap = *rng.pick(&["", "", " ", "\n", "\t "]);
+            let tail = *rng.pick(&["", "", "", " x", ")", " scale(2"]);
+            format!("{name}{gap}({}){tail}", join_nums(rng, &v))
+        } else { transform(rng).replacen('(', *rng.pick(&["(", " (", "\n("]), 1) };
+        st.case(&t, true, || json!({"transform": t}));
+        let tt = t.clone();
+        let imp = std::panic::catch_unwind(move || svgdx::verif_hooks::transform_apply(&tt, [1.0, 2.0, 5.0, 4.0])).map_err(|_| "panic".to_string());
+        let m = drv.call("xfrm", &[&t, "1", "2", "5", "4"])?;
+        let ms = m.first().map(|s| s.as_str()).unwrap_or("");
+        match (&imp, ms) {
+            (Ok(Ok(b)), "ok") => {
+                let want: Vec<f64> = m.get(1).map(|x| x.split(' ').filter_map(rat_to_f64).collect()).unwrap_or_default();
+                let got = [b[0] as f64, b[1] as f64, b[2] as f64, b[3] as f64];
+                if want.len() == 4 && got.iter().zip(&want).all(|(x, y)| (x - y).abs() <= 0.002 * (1.0 + y.abs())) { st.exact += 1; st.tally("accepted"); } else {
+                    rep.violation(Violation { kind: "correspondence", stream: st.name.clone(), signature: "scan:transform-box".into(), what: format!("transform={t:?}: impl {got:?} vs model {:?}", m.get(1)), replay: json!({"transform": t}), confirmed_on_impl: false });
+                }
+            }
+            (Ok(Err(_)), "err") => { st.exact += 1; st.errors_agreed += 1; st.tally("rejected"); }
+            (other, _) => rep.violation(Violation { kind: "correspondence", stream: st.name.clone(), signature: "scan:transform-verdict".into(), what: format!("transform={t:?}: impl {:?} vs model {m:?}", other.as_ref().map(|r| r.as_ref().map(|_| "ok").map_err(|_| "err"))), replay: json!({"transform": t}), confirmed_on_impl: false }),
+        }
+    }
+    rep.streams.push(st);
     Ok(())
 }
 
